@@ -130,7 +130,10 @@ def run(F, R):
             # `if other.f.is_some() { self.f = other.f }`  or  `if let Some(x) = other.f { self.f = Some(x) }`
             ok_a = val == src and ("is_some(%s)" % src, True) in gs
             ok_b = val == "Some{%s@Some.0}" % src and (src, "Some") in gs
-            ok = (ok_a or ok_b) and f in fields
+            # .. and under nothing else: an extra condition (`&& hint != Some("")`) keeps the old value for a field the
+            # response does carry
+            extra = [g_ for g_ in gs if g_ not in (("is_some(%s)" % src, True), (src, "Some"))]
+            ok = (ok_a or ok_b) and f in fields and not extra
             seen.setdefault(f, []).append(ok)
             R.check("C09-R1", "merge:" + f, ok, "self.%s = other.%s exactly when other.%s is present" % (f, f, f),
                     "Cohort::update_from_omaha writes %s = %s under %s" % (chain, val, gs), lib.loc(v2, bi))
